@@ -23,10 +23,18 @@ def parseWriterLog (s : String) : List String × Nat × Bool × Bool :=
 def sameRows (ordered : Bool) (got want : List String) : Bool :=
   if ordered then got == want else sortStrs got == sortStrs want
 
-/-- expected counter totals: rows flowing through the `count` nodes of the program plus what the
-argument results already carry -/
-def counterTotals (p : Program) (env : List Shards) (resultCounters : List (List Nat)) : List Nat :=
-  let base := (List.range 3).map fun c => (resultCounters.map fun rc => rc.getD c 0).foldl (· + ·) 0
+/-- what a completed run contributes to user counters: its own increments, and which earlier runs' task graphs its result
+contains (through Result arguments, transitively).  A Result's scope merges the scopes of the tasks of its graph, each task
+once: a run reached along several paths (`g(r0, f(r0))`) counts once. -/
+structure RunCtr where
+  own : List Nat := []
+  clos : List Nat := []
+deriving Inhabited, Repr
+
+/-- expected counter totals: rows flowing through the `count` nodes of the program plus the increments of every earlier run
+whose tasks the result's graph contains, each once -/
+def counterTotals (p : Program) (env : List Shards) (hist : List RunCtr) (closUsed : List Nat) : List Nat :=
+  let base := (List.range 3).map fun c => (closUsed.map fun j => (hist.getD j {}).own.getD c 0).foldl (· + ·) 0
   (base.zip (counters p env)).map fun (a, b) => a + b
 
 /-- which results does the output of a program depend on -/
@@ -35,8 +43,8 @@ def usedResults (p : Program) : List Nat :=
   let refs := p.nodes.zipIdx.flatMap fun (op, i) => if reach.getD i false then refsOf op else []
   ((p.out :: refs).filterMap fun r => match r with | .result i => some i | _ => none).eraseDups
 
-def checkProgram (prog : String) (results : List Shards) (resultCounters : List (List Nat)) (obs : String)
-    (lenient : Bool := false) : Except String (Shards × List Nat × String) := do
+def checkProgram (prog : String) (results : List Shards) (hist : List RunCtr) (obs : String)
+    (lenient : Bool := false) : Except String (Shards × RunCtr × String) := do
   let (p, names) := ProgParse.parseProgram prog
   let (env, out) := eval p results
   if !wfNodes results p.nodes [] then throw "the program applies Head to rows whose order it does not fix (outside the specified fragment)"
@@ -45,7 +53,8 @@ def checkProgram (prog : String) (results : List Shards) (resultCounters : List 
     | _ => false
   let want := out.rows.map (·.map showKV)
   let used := usedResults p
-  let ctrs := counterTotals p env (used.map fun i => resultCounters.getD i [])
+  let closUsed := (used.flatMap fun u => u :: (hist.getD u {}).clos).eraseDups
+  let ctrs := counterTotals p env hist closUsed
   let model := s!"shards={joinWith " / " (want.map (joinWith ";"))} counters={joinWith "," (ctrs.map toString)}"
   match obs.splitOn " | " with
   | ["ok", scan, shards, writers, scans, counters] =>
@@ -113,7 +122,7 @@ def checkProgram (prog : String) (results : List Shards) (resultCounters : List 
       if !countersDefined p && gotC.length == ctrs.length && (gotC.zip ctrs).all (fun (g, w) => g ≤ w) then
         throw s!"counters {gotC} depend on pipelining: a counting Map feeds a Head, which pulls only part of the {ctrs} rows"
       throw s!"counters {gotC}, the increments performed sum to {ctrs}"
-    pure (out, ctrs, model)
+    pure (out, ⟨BS.Sem.counters p env, closUsed⟩, model)
   | _ =>
     throw s!"a well-typed program did not run to completion: {obs.take 150}"
 
@@ -121,7 +130,7 @@ def run (c obs : String) : String × String × Bool :=
   let segs := c.splitOn ";;"
   let progs := segs.drop 1
   let outs := obs.splitOn " ## "
-  let rec go (ps : List String) (os : List String) (results : List Shards) (ctrs : List (List Nat)) (models : List String) :
+  let rec go (ps : List String) (os : List String) (results : List Shards) (ctrs : List RunCtr) (models : List String) :
       String × String × Bool :=
     match ps, os with
     | [], _ => (joinWith " ## " models, "ok", true)
